@@ -694,7 +694,17 @@ func vpRunCase(line string, caseNo int) (string, string) {
 	sent := uint64(0)
 	timedOut := false
 	all := append(append([]vpToken{}, data...), sentinel)
-	for _, t := range all {
+	// VERIF_PIPE_IDLE_MS: the exporters are silent for that long before the first and before the middle
+	// datagram of the data phase, so that the read loop sees its read deadline expire and then a burst
+	idle := 0
+	if s := os.Getenv("VERIF_PIPE_IDLE_MS"); s != "" {
+		idle, _ = strconv.Atoi(s)
+	}
+	for i, t := range all {
+		if idle > 0 && (i == 0 || i == len(data)/2) {
+			time.Sleep(time.Duration(idle) * time.Millisecond)
+			deadline = deadline.Add(time.Duration(idle) * time.Millisecond)
+		}
 		ok := vpWait(deadline, func() bool {
 			return sent-(p.udpCount()-baseU) <= vpMaxInFlight-1 && p.udpLen() < vpMaxUDPQueue && len(p.mq) < vpMaxMQQueue
 		})
